@@ -130,7 +130,7 @@ template <int n, class M> static LD detLD (const M& A)
 }
 
 // calibrated on the clean tree (seeds 1-5 quick, seeds 1-2 thorough): each constant is about 4x the largest value observed
-static const double CSVD = 64, CSVD_V = 40, CEIG = 24, CFAR = 32, CPROC = 12, CPROC_DEG = 256, CPROC_FAR = 12;
+static const double CSVD = 64, CSVD_V = 40, CEIG = 24, CFAR = 32, CPROC = 12, CPROC_DEG = 256, CPROC_FAR = 12, CFORM = 256;
 
 template <int n, class T> static void svdRun (const typename MT<n>::template M<T>& A, const std::string& name);
 template <int n, class T> static void svdCase (int cls)
@@ -335,6 +335,43 @@ template <class T> static void procrustesCase (int shape, bool weighted, bool do
             if (!doScale) check ("procrustes:unit-scale", (double) fabsl (s - 1), 32 * 2.220446049250313e-16, ctx);
         }
         check ("procrustes:affine", (M[0][3] == 0 && M[1][3] == 0 && M[2][3] == 0 && M[3][3] == 1) ? 0 : 1, 0, ctx);
+    }
+    if (shape == 0)
+    {
+        // the documented formula, for N = 3..12 (the theorems of Props/C12Procrustes.lean prove it for N = 3 from the extracted text):
+        //   M = translate (-cA) * s * V U^T * translate (cB),  U, V = the real jacobiSVD (forcePositiveDeterminant) of the weighted
+        //   covariance C = sum w (b - cB) (a - cA)^T,  s = tr (Q^T C) / sum w |a - cA|^2 with doScale, else 1
+        // evaluated here in long double around the REAL jacobiSVD call; general-position clouds only (C well conditioned, so that
+        // the rounding of C does not move the polar factor).
+        LD ws = 0, cA[3] = {0, 0, 0}, cB[3] = {0, 0, 0}, C[3][3] = {{0, 0, 0}, {0, 0, 0}, {0, 0, 0}}, tA = 0;
+        for (size_t p = 0; p < N; ++p) { LD wi = weighted ? (LD) w[p] : 1; ws += wi; for (int j = 0; j < 3; ++j) { cA[j] += wi * (LD) A[p][j]; cB[j] += wi * (LD) B[p][j]; } }
+        for (int j = 0; j < 3; ++j) { cA[j] /= ws; cB[j] /= ws; }
+        for (size_t p = 0; p < N; ++p)
+        {
+            LD wi = weighted ? (LD) w[p] : 1;
+            for (int i = 0; i < 3; ++i) { for (int j = 0; j < 3; ++j) C[i][j] += wi * ((LD) B[p][i] - cB[i]) * ((LD) A[p][j] - cA[j]); tA += wi * ((LD) A[p][i] - cA[i]) * ((LD) A[p][i] - cA[i]); }
+        }
+        M33d Cd, Ud, Vd; V3d Sd;
+        for (int i = 0; i < 3; ++i) for (int j = 0; j < 3; ++j) Cd[i][j] = (double) C[i][j];
+        jacobiSVD (Cd, Ud, Sd, Vd, std::numeric_limits<double>::epsilon (), true);
+        LD Qt[3][3], sc = 1, tr = 0;
+        for (int i = 0; i < 3; ++i) for (int j = 0; j < 3; ++j) { Qt[i][j] = 0; for (int k = 0; k < 3; ++k) Qt[i][j] += (LD) Vd[i][k] * (LD) Ud[j][k]; }
+        for (int i = 0; i < 3; ++i) for (int j = 0; j < 3; ++j) tr += Qt[j][i] * C[i][j];
+        if (doScale && N > 1) sc = tr / tA;
+        LD e = 0;
+        for (int i = 0; i < 3; ++i) for (int j = 0; j < 3; ++j) e = std::max (e, fabsl ((LD) M[i][j] - sc * Qt[i][j]));
+        for (int j = 0; j < 3; ++j)
+        {
+            LD t = cB[j]; for (int i = 0; i < 3; ++i) t -= sc * cA[i] * Qt[i][j];
+            e = std::max (e, fabsl ((LD) M[3][j] - t) / (scaleB + 1));
+        }
+        // the polar factor is determined (given det = +1) only when C has rank >= 2: skip clouds that are effectively 2 points
+        // (e.g. N = 3 with a zero weight)
+        if (std::abs (Sd[1]) > 1e-3 * std::abs (Sd[0]))
+        {
+            check ("procrustes:result=formula-around-the-real-jacobiSVD", (double) e, (double) (CFORM * std::numeric_limits<double>::epsilon ()), ctx);
+            hits["procrustes:formula-compared"]++;
+        }
     }
     if (!noisy && shape == 7)
     {
